@@ -18,14 +18,33 @@ for m in sorted(glob.glob(os.path.join(HERE, "selftest", "C*", "*.diff"))):
     items.append(("self-neg" if name.startswith("neg-") else "self", prop + "/" + name, m, prop))
 for m in sorted(glob.glob(os.path.join(HERE, "selftest", "ALL", "neg-*.diff"))):
     items.append(("neg", os.path.basename(m)[:-5], m, None))
+# generated negatives: selftest/ALL/neg-gen-<name>.gen holds {"tool": <checker/cmd/tool>, "args": [...]}; the tool rewrites
+# the scratch copy in place into the same program written differently (every local renamed, every condition negated, ...)
+for m in sorted(glob.glob(os.path.join(HERE, "selftest", "ALL", "neg-gen-*.gen"))):
+    items.append(("neg", os.path.basename(m)[:-4], m, None))
 if args: items = [it for it in items if any(a in it[1] or a == it[0] for a in args)]
+TOOLS = {}
+def tool(name):
+    if name not in TOOLS:
+        out = os.path.join(tempfile.gettempdir(), "rie-gen-" + name)
+        subprocess.run(["go", "build", "-o", out, "./cmd/" + name], cwd=os.path.join(HERE, "checker"), env=ENV, check=True)
+        TOOLS[name] = out
+    return TOOLS[name]
+for it in items:
+    if it[2].endswith(".gen"): tool(json.load(open(it[2]))["tool"])
 def run(it):
     kind, name, diff, prop = it
     scratch = tempfile.mkdtemp(prefix="rie-corpus-")
     try:
         dst = os.path.join(scratch, "repo")
         shutil.copytree("/repo", dst, ignore=shutil.ignore_patterns(".git"))
-        if subprocess.run(["git", "apply", "--whitespace=nowarn", diff], cwd=dst, capture_output=True).returncode != 0:
+        if diff.endswith(".gen"):
+            spec = json.load(open(diff))
+            if subprocess.run([tool(spec["tool"]), dst] + spec.get("args", []), env=ENV, capture_output=True).returncode != 0:
+                return it, None, "generator failed"
+            if subprocess.run(["go", "build", "./..."], cwd=dst, env=ENV, capture_output=True).returncode != 0:
+                return it, None, "generated variant does not build"
+        elif subprocess.run(["git", "apply", "--whitespace=nowarn", diff], cwd=dst, capture_output=True).returncode != 0:
             return it, None, "does not apply"
         pr = subprocess.run([BIN, "-property", "all", "-repo", dst, "-verif", HERE, "-no-evidence"], env=ENV, capture_output=True, text=True)
         res, keys, cur = {}, {}, []
